@@ -139,7 +139,10 @@ fn load_package(
         )));
     };
 
-    let imports = collect_imports(&files);
+    // `Builtin` names the compiler's own package: it is always available and never a directory of
+    // the project (separate compilation treats the import the same way)
+    let mut imports = collect_imports(&files);
+    imports.remove("Builtin");
     Ok(PackageUnit {
         name,
         files,
